@@ -73,6 +73,10 @@ proofs check on both trees.  Once the repairs are in `/repo`, add `thread_cancel
 theorem thread_cancel_guards_self_join_holds : thread_cancel_guards_self_join = true := by decide
 /-- (repair of D31) `ServiceBrowser.run()` returns once the instance is done, whatever is still queued -/
 theorem thread_run_stops_when_done (c : Bool) : thread_run_stops false true c = true := by simp [thread_run_stops]
+/-- (repair of R3-C17-a, 609d2f3) `AsyncEngine._async_setup` looks at the instance's `done` flag when the endpoints have been created
+and shuts them down again instead of setting `running_event`.  The leaf is optional: on a tree without the test it is `false` and this
+lemma -- and with it the unconditional `C17_quiet` / `C17_quiet_run` / `C17_no_input_after_close` -- no longer builds. -/
+theorem startup_closes_when_done_on : startup_closes_when_done true = true := by decide
 /-- the four calls of `Zeroconf.close()` come in the order of the model's stages -/
 theorem sync_order_holds : (sync_close_unregisters_before_done && sync_close_done_before_engine_close
     && sync_close_engine_close_before_threads && async_close_sets_done_first) = true := by decide
